@@ -186,4 +186,6 @@ def recv_canon(nf: NF, cfg, mi, node, call: ast.Call) -> str:
     """Canonical receiver of a method call, local aliases resolved (`b = self.buffers[i]; b.add(..)` -> self.buffers[i])."""
     if not isinstance(call.func, ast.Attribute):
         return ""
-    return nf.poly(call.func.value, Scope(cfg, mi, {}, "recv"), node.id).canon()
+    sc = Scope(cfg, mi, {}, "recv")
+    sc.inline_self_attrs = False   # `self.x` names the attribute, not the value last assigned to it
+    return nf.poly(call.func.value, sc, node.id).canon()
